@@ -188,6 +188,18 @@ pub fn gen_c06(run: &mut Run, seed: u64, thorough: bool) {
                 g.rotate(&cand, &pf, true, &auth, &format!("rotate-bypass-{pc}-{hname}"));
                 g.run.op("gw.epoch", "q");
             }
+            // the same with a proof from an OLDER, still retained set: who may bypass must not depend on which set signed
+            for (au, pc) in principals(&oroles, &owner, &bene) {
+                if g.sets.len() < 2 {
+                    break;
+                }
+                let cand = g.mk_set(2, 0, 2);
+                let older = g.sets[g.sets.len() - 2].clone();
+                let pf = g.honest(&older, &cand.rotation_data_hash(&g.env));
+                let auth = AuthSpec::parse(&au);
+                g.rotate(&cand, &pf, true, &auth, &format!("rotate-bypass-older-set-{pc}-{hname}"));
+                g.run.op("gw.epoch", "q");
+            }
             for (ep, role_is_owner) in [("gw.transfer_operatorship", false), ("gw.transfer_ownership", true)] {
                 let ps = if role_is_owner { principals(&wroles, &oroles.holder, &bene) } else { principals(&oroles, &wroles.holder, &bene) };
                 for (au, pc) in ps {
@@ -297,8 +309,9 @@ pub fn gen_c07(run: &mut Run, seed: u64, thorough: bool) {
         ]
     };
     // ---------------- token: with and without allowances ----------------
-    for allowance in [false, true] {
-        let st = if allowance { "with-allowance" } else { "no-allowance" };
+    for variant in 0..3 {
+        let allowance = variant >= 1;
+        let st = ["no-allowance", "with-allowance", "revoked-allowance"][variant];
         run.scenario("tk", &format!("c07-tk-{st}"));
         let maxlive: u32 = new_env().storage().max_ttl();
         run.op("time 1000 100", "time");
@@ -309,6 +322,11 @@ pub fn gen_c07(run: &mut Run, seed: u64, thorough: bool) {
         if allowance {
             run.op(&format!("tk.approve {} {} 300 500 {}", subject.tok(), counter.tok(), subject.tok()), "setup-approve");
             run.op(&format!("tk.approve {} {} 300 500 {}", subject.tok(), stranger.tok(), subject.tok()), "setup-approve");
+        }
+        if variant == 2 {
+            // the usual ways of revoking: amount 0 with an expiration in the past / at ledger 0 / still in the future
+            run.op(&format!("tk.approve {} {} 0 0 {}", subject.tok(), counter.tok(), subject.tok()), "revoke-expiration-0");
+            run.op(&format!("tk.approve {} {} 0 99 {}", subject.tok(), stranger.tok(), subject.tok()), "revoke-expiration-past");
         }
         let qs = |run: &mut Run| {
             for a in [&subject, &counter, &stranger] {
